@@ -376,6 +376,14 @@ def extra_obligations(mods, tier, seed):
                 else:
                     plain, shaped = script(lambda v: v), script(lambda v, w=w: w.format(v))
                 jobs.append((f"{cname}/{wname}/{place}", plain, shaped))
+    # a query stored in a variable is the query: printed and compared with the value printed directly (fractional frequency, so that a
+    # variable of a narrower type shows), in setup, in the main loop and in a helper
+    MON = "from Reduino.Communication import SerialMonitor\nmon = SerialMonitor(9600)\n"
+    for q in ("get_last_frequency", "get_frequency", "get_state"):
+        pre = HEADS + MON + "bz.play_tone(440.5)\n" + ("" if q != "get_last_frequency" else "bz.stop()\n")
+        jobs.append((f"query-in-variable/{q}/setup", pre + f"mon.write(bz.{q}())\n", pre + f"kept = bz.{q}()\nmon.write(kept)\n"))
+        jobs.append((f"query-in-variable/{q}/main-loop", pre + f"while True:\n    mon.write(bz.{q}())\n    sleep(5)\n", pre + f"while True:\n    kept = bz.{q}()\n    mon.write(kept)\n    sleep(5)\n"))
+        jobs.append((f"query-in-variable/{q}/helper-return", pre + f"mon.write(bz.{q}())\n", pre + f"def ask():\n    return bz.{q}()\nmon.write(ask())\n"))
     with mp.Pool(8) as pool:
         res = pool.map(_shape_one, jobs, chunksize=1)
     bad = [r for r in res if r[1] not in ("same", "rejected")]
@@ -399,7 +407,7 @@ def _shape_one(job):
         r = run_sketch(cpp, passes=2)
         if not r.get("compiled"):
             return name, "does-not-compile", r.get("errors", "")[-300:], src
-        ev.append([e for e in r["events"] if e[:2] in ("T:", "N:", "D:")])
+        ev.append([e for e in r["events"] if e[:2] in ("T:", "N:", "D:", "S:")])
     if ev[0] != ev[1]:
         k = next((i for i, (a, b) in enumerate(zip(ev[0], ev[1])) if a != b), min(len(ev[0]), len(ev[1])))
         return name, "differs", {"at": k, "plain": ev[0][k:k + 4], "shaped": ev[1][k:k + 4], "lengths": [len(ev[0]), len(ev[1])]}, shaped
